@@ -9,6 +9,7 @@ def answer (line : String) : String :=
     match fam with
     | "hsm" => hsmLine toks
     | "hsmspec" => hsmSpecLine toks
+    | "hsmf" => hsmfLine toks
     | "q" => qLine toks
     | "ld" => ldLine toks
     | "lds" => ldsLine toks
